@@ -1,6 +1,7 @@
 # C18 Netcode liveness — only the clauses that are visible in the shape of the code
 import re
 from sa.rules import *
+import rules.wave3 as W3
 import rules.shared as shared
 from rules.netcode_common import *
 import rules.C07 as C07
@@ -102,4 +103,6 @@ def rules(t):
     out.append(r)
     out.append(shared.slots_match_limit(t, "C18.e"))
     out.append(shared.capacity_rule(t, "C18.f"))
+    out.append(W3.nonce_counter_use(t, "C18.h"))
+    out.append(W3.client_state_machine(t, "C18.j", "timer"))
     return out
